@@ -21,9 +21,13 @@ FingerGen(r) ==
   IF r.gen = "panic" THEN {<<"C13", "generator-panic", r.why, r.id>>}
   ELSE IF r.gen = "hang" THEN {<<"C13", "generator-hang", "", r.id>>}
   ELSE LET conv == Conv(r.cfg, r.s, r.t) IN
-       IF (r.gen = "ok") # conv
-       THEN {<<"C03", IF conv THEN "rejected-convertible" ELSE "accepted-unconvertible", "", r.id>>}
-       ELSE {}
+       (IF (r.gen = "ok") # conv
+        THEN {<<"C03", IF conv THEN "rejected-convertible" ELSE "accepted-unconvertible", "", r.id>>}
+        ELSE {})
+       \cup (IF r.gen = "fail" /\ ~r.diag THEN {<<"C03", "failure-without-diagnostic", "", r.id>>} ELSE {})
+       \cup (IF r.gen = "fail" /\ r.nfiles > 0 THEN {<<"C03", "failure-with-output", "", r.id>>} ELSE {})
+       \cup (IF r.gen = "fail" /\ ~r.namesDecl THEN {<<"C13", "diagnostic-without-declaration", "", r.id>>} ELSE {})
+       \cup (IF r.gen = "ok" /\ ~r.compiles THEN {<<"C01", "does-not-compile", "", r.id>>} ELSE {})
 
 FingerExec(r) ==
   LET in == FromJson(r["in"])
